@@ -1605,3 +1605,17 @@ package objects
 //@   at[typedaftertemplate] call objects.Queue.UpdateQueueProperties#1: assert arg0 == sq && ncalls(objects.Queue.addChildQueue) == 1
 //@   ensures[converted] err == nil ==> q != nil && ncalls(objects.Queue.UpdateQueueProperties) == 1 && ncalls(objects.Queue.addChildQueue) == 1
 //@   ensures[refused] err != nil ==> q == nil
+
+// (re)applying a configuration to a queue always re-parses BOTH access control lists from the configuration, an empty
+// one included (an ACL removed by a reload stops admitting its former users), marks the queue managed and takes the
+// leaf flag, max-applications and properties of the configuration
+//@ func (sq *Queue) applyConf(conf configs.QueueConfig, silence bool) (oldMax *resources.Resource, err error)
+//@   props C17 C16
+//@   sweep
+//@   mode nopanic=off
+//@   at[submitacl] call security.NewACL#1: assert arg0 == conf.SubmitACL && arg1 == silence
+//@   at[adminacl] call security.NewACL#2: assert arg0 == conf.AdminACL && arg1 == silence && ncalls(security.NewACL) == 1
+//@   at[aclsfirst] call objects.Queue.IsRunning#1: assert ncalls(security.NewACL) == 2
+//@   ensures[acls] err == nil ==> ncalls(security.NewACL) == 2 && sq.isManaged
+//@   ensures[shape] err == nil ==> sq.isLeaf == (!conf.Parent && len(conf.Queues) == 0) && sq.properties == conf.Properties
+//@   ensures[maxapps] err == nil && sq.Name != "root" ==> sq.maxRunningApps == conf.MaxApplications
